@@ -436,6 +436,7 @@ def run(ctx: common.Run):
                                {'lines': [{'circuit': repr(wrapped), 'structure': moments}], 'impl_out': [sorted((repr(k), round(v, 8)) for k, v in got.items())],
                                 'spec_out': [sorted((repr(k), round(v, 8)) for k, v in want.items())], 'theorem_or_correspondence': 'wrap_eq_unroll (distribution)'})
 
+    check_sympy_key_maps(ctx, cirq)
     # (5) the whole option space of the scoping template (13 binary options), structure and key queries only
     codes = range(8192) if ctx.tier != 'quick' else [c for c in range(8192) if (c * 2654435761 + ctx.seed) % 8 == 0]
     ecases = []
@@ -465,6 +466,36 @@ def run(ctx: common.Run):
             ctx.report_witness('query:measurement_key_names', 'measurement keys of the wrapped circuit differ from those of its unrolled form', rep)
         if {str(k) for k in cirq.control_keys(wrapped)} != {str(k) for k in cirq.control_keys(spec_circuit)}:
             ctx.report_witness('query:control_keys', 'control keys of the wrapped circuit differ from those of its unrolled form', rep)
+
+
+def check_sympy_key_maps(ctx, cirq):
+    """a key map on a sub-circuit renames all keys of a sympy condition at once (also when the map permutes them)"""
+    import sympy
+
+    q0, q1, q2 = cirq.LineQubit.range(3)
+    a, b_, c = sympy.symbols('a b c')
+    for expr, name in ((a > b_, 'a > b'), (a + 2 * b_ > 1, 'a + 2b > 1'), (sympy.Eq(a, b_ + 1), 'a == b + 1'), ((a > b_) & (c > a), '(a > b) & (c > a)')):
+        for kmap in ({'a': 'b', 'b': 'a'}, {'a': 'b', 'b': 'c', 'c': 'a'}, {'a': 'x'}, {'b': 'a', 'a': 'x'}):  # injective on the measured keys
+            for bits in ((1, 0, 0), (0, 1, 1), (1, 1, 0), (0, 0, 1)):
+                body = cirq.FrozenCircuit(
+                    [cirq.X(q) for q, v in zip((q0, q1, q2), bits) if v],
+                    cirq.measure(q0, key='a'), cirq.measure(q1, key='b'), cirq.measure(q2, key='c'),
+                    cirq.X(q0).with_classical_controls(cirq.SympyCondition(expr)), cirq.measure(q0, key='out'))
+                wrapped = cirq.Circuit(cirq.CircuitOperation(body, measurement_key_map=kmap))
+                ctx.count('check', 'sympy-key-map')
+                ctx.case(['sympy-key-map', name, sorted(kmap.items()), bits], True)
+                fire = bool(expr.subs({a: bits[0], b_: bits[1], c: bits[2]}))
+                want = {kmap.get('a', 'a'): bits[0], kmap.get('b', 'b'): bits[1], kmap.get('c', 'c'): bits[2], 'out': bits[0] ^ int(fire)}
+                try:
+                    rec = cirq.Simulator().run(wrapped).records
+                    got = {k: int(v[0][0][0]) for k, v in rec.items()}
+                except ValueError as e:
+                    got = f'ValueError: {e}'[:120]
+                if got != want:
+                    ctx.report_witness('keymap:sympy-condition', 'a measurement key map on a sub-circuit does not rename the keys of a sympy condition consistently',
+                                       {'lines': [{'condition': name, 'key_map': kmap, 'bits': bits, 'circuit': repr(wrapped)[:1500]}], 'impl_out': [got], 'spec_out': [want],
+                                        'theorem_or_correspondence': 'Model.C12 key maps (simultaneous renaming)'})
+                    break
 
 
 def depth_of(moments):
